@@ -182,11 +182,11 @@ def forgeries(m):
     eid = m.agent.engine_id
     out = []
 
-    def build(req_entry, flags, pdu_tag=snmp.PDU_RESPONSE, auth=b"", user_name=None, engine=None, varbinds=None, sign_with=None, encrypt_with=None, request_id=None):
+    def build(req_entry, flags, pdu_tag=snmp.PDU_RESPONSE, auth=b"", user_name=None, engine=None, varbinds=None, sign_with=None, encrypt_with=None, request_id=None, es=0, ei=0):
         msg = req_entry["msg"]
         rid = req_entry["pdu"]["request_id"] if request_id is None else request_id
         vbs = varbinds if varbinds is not None else [(o, FORGED_VALUE) for o, _ in req_entry["pdu"]["varbinds"]]
-        pdu = snmp.pdu_node(pdu_tag, rid, 0, 0, vbs)
+        pdu = snmp.pdu_node(pdu_tag, rid, es, ei, vbs)
         scoped = snmp.scoped_pdu_node(msg["scoped"]["context_engine_id"], msg["scoped"]["context_name"], pdu)
         payload = scoped
         salt = b""
@@ -234,6 +234,12 @@ def forgeries(m):
     F("report-with-usmStats-and-ordinary-bindings", flags=0, pdu_tag=snmp.PDU_REPORT, varbinds=None)
     F("report-unknown-oid", flags=0, pdu_tag=snmp.PDU_REPORT, varbinds=[((1, 3, 6, 1, 6, 3, 15, 1, 1, 9, 0), ("c32", 1))])
     F("report-empty", flags=0, pdu_tag=snmp.PDU_REPORT, varbinds=[])
+    # error responses and reports carrying an error-status, unauthenticated:
+    # inside a walk noSuchName would end the walk silently
+    for status in (2, 5, 1):
+        F("report-unauthenticated-error-status-%d" % status, flags=0, pdu_tag=snmp.PDU_REPORT, es=status, ei=1)
+        F("response-unauthenticated-error-status-%d" % status, flags=0, es=status, ei=1)
+        F("response-zero-digest-error-status-%d" % status, flags=1, auth=Z12, es=status, ei=1)
     # the authentic message with only its flags octet rewritten
     for fl in (0, 1, 2, 3, 4, 5, 7):
         out.append(("authentic-with-flags-%d" % fl, lambda req, resp, entry, fl=fl: _set_flags(resp, fl)))
@@ -408,7 +414,7 @@ def meta(tier):
     return {
         "level": "fault_enumeration",
         "rule": "seeds = operations %r x (level, hash) %s; per seed: every single-bit flip of the authentic response of one exchange, every pair of flips with one flip in the msgFlags octet, %d structural forgeries with attacker-chosen content%s; each case is one operation of the real client against the rewriting man-in-the-middle under a %.1f s CPU budget; every case is distinct and non-trivial (the delivered datagram differs from the authentic one)"
-        % ([o[0] for o in SEED_OPS], "subset" if tier == "quick" else "all four", 40, "; all pairs of flips on the shortest seed" if tier == "thorough" else "", BUDGET),
+        % ([o[0] for o in SEED_OPS], "subset" if tier == "quick" else "all four", 50, "; all pairs of flips on the shortest seed" if tier == "thorough" else "", BUDGET),
         "exhaustive": True,
         "bounds": {"seeds": seeds(tier)},
         "assumptions": ["flips that leave the result unchanged satisfy the statement", "multi-bit corruptions beyond the listed families are not covered"],
